@@ -13,17 +13,8 @@
 EXTENDS TraceBase, CvssTables
 
 
-\* Renderings of a tenth with at most one decimal digit.  IEEE negative zero is the
-\* number 0 and prints as "-0": it satisfies the property as worded (a multiple of 0.1
-\* between 0.0 and 10.0, no decimal digit), so it is admitted (the v2 equations produce
-\* it when the impact factor f is 0 and the bracket is negative).
-Prints(t) == {TenthStr(t)} \cup (IF t = 0 THEN {"-0"} ELSE {})
-
 GridVerdict(ev) ==
-  IF ev.fam = "v2" /\ ev.neg
-  THEN (IF ev.ex /\ ev.obs \in (-100)..100 /\ ev.str \in Prints(ev.obs) THEN "ok"
-        ELSE "grid:negative-equation score " \o ev.str)
-  ELSE IF ~(ev.obs \in 0..100) THEN "grid:" \o ev.fam \o " " \o ev.lvl \o " score outside 0.0..10.0: " \o ev.str
+  IF ~(ev.obs \in 0..100) THEN "grid:" \o ev.fam \o " " \o ev.lvl \o " score outside 0.0..10.0: " \o ev.str
   ELSE IF ~ev.ex THEN "grid:" \o ev.fam \o " " \o ev.lvl \o " score is not a multiple of 0.1: " \o ev.str
   ELSE IF ev.str \notin Prints(ev.obs) THEN "grid:" \o ev.fam \o " " \o ev.lvl \o " score " \o TenthStr(ev.obs) \o " prints as " \o ev.str
   ELSE IF ev.fam \in {"v3", "v3r"} /\ ev.sev # V3SeverityBand(ev.obs)
